@@ -12,6 +12,11 @@
 //	other_writes            : list str      the same reports everywhere else in the package
 //	                                        (other functions, methods of other types, function
 //	                                        literals, package-level initialisers); expected empty
+//	direct_header_uses      : list (str * nat)  how many Statement-typed expressions are in each of
+//	                                        the direct positions (rules 1-3, 10); evidence only
+//	self_appending_methods  : list str      the methods containing `*s = append(*s, ..)` (rule 10)
+//	ptr_results, ptr_locals, builder_calls  rules 13, 14: who the methods of Statement are called
+//	                                        on; Spec/CloneShape.v (foreign_builder_calls) decides
 //	copies_readonly         : list copy_row (Spec/CloneShape.v)
 //	    one row (function, "file:line name", uses) per COPY of a Statement's slice header: a
 //	    local variable or parameter that receives one (`uses` is the category of every
@@ -55,7 +60,59 @@
 //     UseSelfAssign
 //
 // and for the receiver s (a *Statement) of the enclosing method only:
-//  10. both the left side and the first argument of `*s = append(*s, ...)` (not a copy).
+//  10. both the left side and the first argument of `*s = append(*s, ...)` (not a copy), where
+//     both `s` resolve to the receiver variable, the statement is not inside a function literal
+//     and not under go/defer (it runs during the call), and the receiver variable is never
+//     assigned and never has its address taken anywhere (rule 11: it still points to the cell
+//     the method was called on).  Otherwise it is an UseAppendDst / UseOther like any other.
+//
+// POINTERS TO STATEMENTS (rules 11-14).  Rules 1-10 are about slice headers; these are about
+// which CELL a `*s`, or a method call, reaches.
+//  11. Reported: any receiver or parameter whose type is a pointer to Statement (or to a type
+//     with the same underlying type) that is assigned (`s = p`, `s, ok = ..`, `s, x := ..`
+//     redeclaring it, range with `=`), incremented or has its address taken (`&s`) anywhere in
+//     the package, function literals included.
+//  12. Reported: every conversion T(e) where T or the type of e is a pointer to Statement, to
+//     []Code or to a type with that underlying type (`(*[]Code)(s)`, `(*Statement)(p)`,
+//     `unsafe.Pointer(s)`; a nil operand is exempt); any import of package unsafe; any call of
+//     a function or method of package reflect or unsafe with an argument (or receiver) whose
+//     static type is such a pointer or such a slice.  NOT seen: reflect on a statement that is
+//     held in an interface value (`reflect.ValueOf(code)`).
+//  13. builder_calls has one row for every selector expression that go/types resolves to a
+//     method of Statement (value or pointer receiver; promoted through embedding included), and
+//     for every selector that resolves to an interface method with the NAME of a method of
+//     Statement (kind PkOther: the receiver is chosen at run time).  The kind of a row is
+//     PkOther when the selector is not the function of a call (method value `s.Add`, method
+//     expression `(*Statement).Add`), or the call is under go/defer; otherwise it is the kind
+//     of the receiver expression x, which must have type *Statement:
+//     PkSelf           x is an identifier resolving to the receiver variable of the enclosing
+//     method of *Statement, not inside a function literal, never mutated (11)
+//     PkLocal fn v     x is an identifier resolving to a local variable that is declared with
+//     its own initialiser (`v := e`, positionwise in `a, b := e1, e2`,
+//     `var v = e`), is never mutated in the sense of rule 11 and is not
+//     mentioned here inside a function literal that does not declare it;
+//     ptr_locals gets the row (fn, v, kind of e)
+//     PkNew            `&Statement{..}`, `new(Statement)`
+//     PkChain m k      `e.M(..)`: M a method of Statement declared with a body, called
+//     directly through a selector; m its key, k the kind of e
+//     PkCall f         `f(..)`, `y.f(..)`: a non-generic function, or method of another type,
+//     declared with a body in package jen and statically bound; f its key
+//     PkOther why      everything else: parameters, fields, package-level variables,
+//     elements, type assertions, variables without own initialiser, ...
+//  14. ptr_results has one row for every function and method declared with a body whose only
+//     result has type *Statement: the kind (as in 13) of the operand of each of its return
+//     statements (those of nested function literals excluded; a bare return is PkOther).
+//
+// Which rows are harmless is decided in Coq (Spec/CloneShape.v: kind_self, kind_fresh, mutating,
+// foreign_builder_calls; soundness in Proofs/CloneShapeProofs.v).
+//
+// WHAT IS ENUMERATED (so that "copies_readonly = []" means "there is no copy"): phase 1 visits
+// every node of every selected file; every ast.Expr other than a ParenExpr for which go/types
+// recorded a VALUE of a type identical to Statement - except a CompositeLit - is classified by
+// rules 1-10, and gets a row in copies_readonly unless its category is UseRange, UseIndexRead,
+// UseLen, UseCap or UseAppendSelf (counted in direct_header_uses), or it is a mention (or
+// reslice) of a tracked variable (then the variable's row has the category), or it is a
+// reslice/conversion of a header expression (then the operand's category wraps it).
 //
 // NOT read-only, reported:
 //
@@ -156,6 +213,11 @@ type analysis struct {
 	tracked  map[*types.Var]*copyRow
 	queue    []*types.Var
 	exprRows []*copyRow
+	// pointers to statements (rules 11-14)
+	ptrStmt     types.Type
+	defInit     map[*types.Var]ast.Expr
+	ptrLocals   map[*types.Var]*ptrLocal
+	stmtMethods map[string]bool
 	// reports, by enclosing top-level declaration
 	reports map[ast.Node][]string
 	seen    map[string]bool
@@ -242,7 +304,181 @@ func (a *analysis) isRecvDeref(e ast.Expr) bool {
 		return false
 	}
 	id, ok := unparen(st.X).(*ast.Ident)
-	return ok && a.info.Uses[id] == recv
+	if !ok || a.info.Uses[id] != recv {
+		return false
+	}
+	// rule 10: directly in the method's body (the statement must run during the call, on the
+	// cell the method was called on)
+	return !a.inFuncLit(id) && !a.underGoDefer(id) && a.mutated(recv) == ""
+}
+
+// inFuncLit: some function literal lies between n and the enclosing declaration.
+func (a *analysis) inFuncLit(n ast.Node) bool {
+	for p := a.parent[n]; p != nil; p = a.parent[p] {
+		if _, ok := p.(*ast.FuncLit); ok {
+			return true
+		}
+	}
+	return false
+}
+
+// underGoDefer: n is inside the operand of a go or defer statement.
+func (a *analysis) underGoDefer(n ast.Node) bool {
+	for p := a.parent[n]; p != nil; p = a.parent[p] {
+		switch p.(type) {
+		case *ast.GoStmt, *ast.DeferStmt:
+			return true
+		}
+	}
+	return false
+}
+
+// captured: the mention id of the local variable v is inside a function literal that does
+// not declare v.
+func (a *analysis) captured(id *ast.Ident, v *types.Var) bool {
+	for n := a.parent[ast.Node(id)]; n != nil; n = a.parent[n] {
+		if fl, ok := n.(*ast.FuncLit); ok && !(fl.Pos() <= v.Pos() && v.Pos() < fl.End()) {
+			return true
+		}
+	}
+	return false
+}
+
+// mutated: why the variable v does not keep the value it was bound to ("" when it does): some
+// mention of it anywhere in the package (function literals included) is the left side of an
+// assignment (any operator; `v, x := ..` redeclarations included), a range variable of the
+// assignment form, the operand of ++/-- or the operand of &.
+func (a *analysis) mutated(v *types.Var) string {
+	for _, id := range a.usesOf[v] {
+		p, child := a.up(id)
+		switch p := p.(type) {
+		case *ast.AssignStmt:
+			for _, l := range p.Lhs {
+				if l == child {
+					return "assigned at " + a.posText(id.Pos())
+				}
+			}
+		case *ast.RangeStmt:
+			if p.Key == child || p.Value == child {
+				return "assigned by range at " + a.posText(id.Pos())
+			}
+		case *ast.IncDecStmt:
+			return "modified at " + a.posText(id.Pos())
+		case *ast.UnaryExpr:
+			if p.Op == token.AND {
+				return "address taken at " + a.posText(id.Pos())
+			}
+		}
+	}
+	return ""
+}
+
+// stmtLikePtr: t is a pointer to Statement or to any type with the same underlying type
+// ([]Code itself, a defined type over it).
+func (a *analysis) stmtLikePtr(t types.Type) bool {
+	if t == nil {
+		return false
+	}
+	p, ok := t.Underlying().(*types.Pointer)
+	if !ok {
+		return false
+	}
+	return types.Identical(p.Elem().Underlying(), a.stmtType.Underlying())
+}
+
+// ptrLocal is one row of ptr_locals.
+type ptrLocal struct {
+	fn, key, kind string
+	pos           token.Pos
+}
+
+func pkOther(what string) string { return "PkOther " + coqfmt.Str(what) }
+
+// ptrKind: what the *Statement-typed expression e denotes, as a term of type ptr_kind
+// (Spec/CloneShape.v); rule 13.
+func (a *analysis) ptrKind(e ast.Expr) string {
+	e = unparen(e)
+	if tv, ok := a.info.Types[e]; !ok || tv.Type == nil || !types.Identical(tv.Type, a.ptrStmt) {
+		return pkOther(a.exprText(e) + ": not an expression of type *Statement")
+	}
+	switch x := e.(type) {
+	case *ast.Ident:
+		v, _ := a.info.Uses[x].(*types.Var)
+		if v == nil {
+			return pkOther(x.Name + ": not a variable")
+		}
+		if a.localVar(v) && a.captured(x, v) {
+			return pkOther(x.Name + ": mentioned inside a function literal that does not declare it")
+		}
+		if why := a.mutated(v); why != "" {
+			return pkOther(x.Name + ": variable " + why)
+		}
+		if recv := a.recvOf(x); recv != nil && recv == v {
+			if a.inFuncLit(x) {
+				return pkOther(x.Name + ": the receiver mentioned inside a function literal")
+			}
+			return "PkSelf"
+		}
+		init, ok := a.defInit[v]
+		if !ok || !a.localVar(v) {
+			return pkOther(x.Name + ": a parameter, package-level variable, field or variable declared without its own initialiser")
+		}
+		r := a.ptrLocals[v]
+		if r == nil {
+			r = &ptrLocal{fn: fnKey(a.top(init)), key: a.varKey(v), pos: v.Pos()}
+			a.ptrLocals[v] = r
+			r.kind = a.ptrKind(init)
+		}
+		return "PkLocal " + coqfmt.Str(r.fn) + " " + coqfmt.Str(r.key)
+	case *ast.UnaryExpr:
+		if x.Op == token.AND {
+			if _, ok := unparen(x.X).(*ast.CompositeLit); ok {
+				return "PkNew"
+			}
+		}
+	case *ast.CallExpr:
+		if a.isBuiltin(x.Fun, "new") {
+			return "PkNew"
+		}
+		fn, decl := a.callee(x)
+		if fn == nil {
+			return pkOther(a.exprText(e) + ": result of a call that is not statically bound to a function declared in package jen")
+		}
+		if rb, _ := recvBase(decl); rb == "Statement" {
+			sel, ok := unparen(x.Fun).(*ast.SelectorExpr)
+			if !ok {
+				return pkOther(a.exprText(e) + ": method of Statement not called through a selector")
+			}
+			if s := a.info.Selections[sel]; s == nil || s.Kind() != types.MethodVal {
+				return pkOther(a.exprText(e) + ": method expression")
+			}
+			return "PkChain " + coqfmt.Str(fnKey(decl)) + " (" + a.ptrKind(sel.X) + ")"
+		}
+		return "PkCall " + coqfmt.Str(fnKey(decl))
+	}
+	return pkOther(a.exprText(e) + ": not a variable, a call or &Statement{..}")
+}
+
+// recvDerefNotDirect: e is `*s` for the receiver s, but not one rule 10 accepts: why.
+func (a *analysis) recvDerefNotDirect(e ast.Expr) string {
+	st, ok := unparen(e).(*ast.StarExpr)
+	if !ok {
+		return ""
+	}
+	recv := a.recvOf(e)
+	id, ok := unparen(st.X).(*ast.Ident)
+	if recv == nil || !ok || a.info.Uses[id] != recv {
+		return ""
+	}
+	switch {
+	case a.inFuncLit(id):
+		return "inside a function literal (it may run after the call returned)"
+	case a.underGoDefer(id):
+		return "under go/defer"
+	case a.mutated(recv) != "":
+		return "although the receiver variable is " + a.mutated(recv)
+	}
+	return ""
 }
 
 func (a *analysis) isBuiltin(fun ast.Expr, name string) bool {
@@ -513,6 +749,9 @@ func (a *analysis) classifyCall(e ast.Expr, p *ast.CallExpr, child ast.Node) use
 				}
 				return badUse("UseAppendDst", "append to a Statement whose result is not assigned back to it")
 			}
+			if why := a.recvDerefNotDirect(e); why != "" {
+				return badUse("UseAppendDst", "append to the receiver's statement "+why)
+			}
 			return badUse("UseAppendDst", "append to a copy of a Statement's slice header (it may write into the shared array)")
 		case a.isBuiltin(p.Fun, "append") && argi == len(p.Args)-1 && p.Ellipsis.IsValid():
 			return ro("UseAppendSrc")
@@ -756,12 +995,22 @@ func main() {
 
 	a := &analysis{
 		fset: fset, info: info, pkg: pkg, stmtType: stmtType,
-		parent:  map[ast.Node]ast.Node{},
-		decls:   map[*types.Func]*ast.FuncDecl{},
-		usesOf:  map[*types.Var][]*ast.Ident{},
-		tracked: map[*types.Var]*copyRow{},
-		reports: map[ast.Node][]string{},
-		seen:    map[string]bool{},
+		parent:      map[ast.Node]ast.Node{},
+		decls:       map[*types.Func]*ast.FuncDecl{},
+		usesOf:      map[*types.Var][]*ast.Ident{},
+		tracked:     map[*types.Var]*copyRow{},
+		reports:     map[ast.Node][]string{},
+		seen:        map[string]bool{},
+		ptrStmt:     types.NewPointer(stmtType),
+		defInit:     map[*types.Var]ast.Expr{},
+		ptrLocals:   map[*types.Var]*ptrLocal{},
+		stmtMethods: map[string]bool{},
+	}
+	for _, t := range []types.Type{stmtType, a.ptrStmt} {
+		ms := types.NewMethodSet(t)
+		for i := 0; i < ms.Len(); i++ {
+			a.stmtMethods[ms.At(i).Obj().Name()] = true
+		}
 	}
 	for _, f := range files {
 		var stack []ast.Node
@@ -788,6 +1037,33 @@ func main() {
 		if v, ok := o.(*types.Var); ok {
 			a.usesOf[v] = append(a.usesOf[v], id)
 		}
+	}
+	// the initialiser of every variable declared with its own one (`x := e`, `a, b := e1, e2`,
+	// `var x = e`, `var x T = e`)
+	for _, f := range files {
+		ast.Inspect(f, func(x ast.Node) bool {
+			switch d := x.(type) {
+			case *ast.AssignStmt:
+				if d.Tok == token.DEFINE && len(d.Lhs) == len(d.Rhs) {
+					for i, l := range d.Lhs {
+						if id, ok := l.(*ast.Ident); ok {
+							if v, ok := info.Defs[id].(*types.Var); ok {
+								a.defInit[v] = d.Rhs[i]
+							}
+						}
+					}
+				}
+			case *ast.ValueSpec:
+				if len(d.Names) == len(d.Values) {
+					for i, id := range d.Names {
+						if v, ok := info.Defs[id].(*types.Var); ok {
+							a.defInit[v] = d.Values[i]
+						}
+					}
+				}
+			}
+			return true
+		})
 	}
 	for _, ids := range a.usesOf {
 		sort.Slice(ids, func(i, j int) bool { return ids[i].Pos() < ids[j].Pos() })
@@ -855,6 +1131,194 @@ func main() {
 			continue
 		}
 		a.exprRows = append(a.exprRows, &copyRow{fn: fnKey(a.top(h.e)), name: a.posText(h.e.Pos()) + " " + a.exprText(h.e) + " (expression)", pos: h.e.Pos(), uses: []use{h.u}})
+	}
+
+	// rule 11: the receiver and the *Statement parameters of every function keep their value
+	for _, f := range files {
+		for _, d := range f.Decls {
+			fd, ok := d.(*ast.FuncDecl)
+			if !ok {
+				continue
+			}
+			var fields []*ast.Field
+			if fd.Recv != nil {
+				fields = append(fields, fd.Recv.List...)
+			}
+			if fd.Type.Params != nil {
+				fields = append(fields, fd.Type.Params.List...)
+			}
+			for _, fl := range fields {
+				for _, nm := range fl.Names {
+					v, _ := info.Defs[nm].(*types.Var)
+					if v == nil || !a.stmtLikePtr(v.Type()) {
+						continue
+					}
+					if why := a.mutated(v); why != "" {
+						a.report(nm, "", other("the receiver or parameter "+nm.Name+" of type "+v.Type().String()+" is "+why+" (it may then point to another statement's cell)"))
+					}
+				}
+			}
+		}
+	}
+	// rule 12: pointer conversions, unsafe, reflect
+	for _, f := range files {
+		for _, im := range f.Imports {
+			if im.Path.Value == `"unsafe"` {
+				a.report(im, "", other("package unsafe imported"))
+			}
+		}
+		ast.Inspect(f, func(x ast.Node) bool {
+			call, ok := x.(*ast.CallExpr)
+			if !ok {
+				return true
+			}
+			if tv, ok := info.Types[call.Fun]; ok && tv.IsType() {
+				if len(call.Args) != 1 {
+					return true
+				}
+				atv := info.Types[call.Args[0]]
+				if atv.IsNil() {
+					return true
+				}
+				if a.stmtLikePtr(tv.Type) || a.stmtLikePtr(atv.Type) {
+					a.report(call, "", other("pointer conversion "+a.exprText(call)+" from "+atv.Type.String()+" to "+tv.Type.String()+" (a statement's cell reached through a pointer of another type)"))
+				}
+				return true
+			}
+			var id *ast.Ident
+			switch fun := unparen(call.Fun).(type) {
+			case *ast.Ident:
+				id = fun
+			case *ast.SelectorExpr:
+				id = fun.Sel
+			}
+			if id == nil {
+				return true
+			}
+			o := info.Uses[id]
+			if o == nil || o.Pkg() == nil || (o.Pkg().Path() != "reflect" && o.Pkg().Path() != "unsafe") {
+				return true
+			}
+			args := append([]ast.Expr{}, call.Args...)
+			if se, ok := unparen(call.Fun).(*ast.SelectorExpr); ok && info.Selections[se] != nil {
+				args = append(args, se.X)
+			}
+			for _, arg := range args {
+				if t := info.Types[arg].Type; a.stmtLikePtr(t) || (t != nil && types.Identical(t.Underlying(), stmtType.Underlying())) {
+					a.report(call, "", other("a statement passed to package "+o.Pkg().Path()+": "+a.exprText(call)))
+				}
+			}
+			return true
+		})
+	}
+	// rule 13: every mention of a method of Statement
+	type callRow struct {
+		fn, where, method, kind string
+		pos                     token.Pos
+	}
+	var calls []callRow
+	for _, f := range files {
+		ast.Inspect(f, func(x ast.Node) bool {
+			se, ok := x.(*ast.SelectorExpr)
+			if !ok {
+				return true
+			}
+			sel := info.Selections[se]
+			if sel == nil {
+				return true
+			}
+			fn, ok := sel.Obj().(*types.Func)
+			if !ok {
+				return true
+			}
+			recvT := fn.Type().(*types.Signature).Recv().Type()
+			row := callRow{fn: fnKey(a.top(se)), where: a.posText(se.Pos()) + " " + a.exprText(se), method: "Statement." + fn.Name(), pos: se.Pos()}
+			if types.IsInterface(recvT) {
+				if a.stmtMethods[fn.Name()] {
+					row.kind = pkOther("method of an interface (the receiver is chosen at run time)")
+					calls = append(calls, row)
+				}
+				return true
+			}
+			if pt, ok := recvT.(*types.Pointer); ok {
+				recvT = pt.Elem()
+			}
+			if !types.Identical(recvT, stmtType) {
+				return true
+			}
+			p, child := a.up(se)
+			call, isCall := p.(*ast.CallExpr)
+			switch {
+			case !isCall || call.Fun != child || sel.Kind() != types.MethodVal:
+				row.kind = pkOther("method value or method expression (it can be called later, on any statement)")
+			case a.underGoDefer(se):
+				row.kind = pkOther("called in a go or defer statement")
+			default:
+				row.kind = a.ptrKind(se.X)
+			}
+			calls = append(calls, row)
+			return true
+		})
+	}
+	// rule 14: what every function with the single result *Statement returns
+	type resultRow struct {
+		fn    string
+		kinds []string
+	}
+	var results []resultRow
+	for _, f := range files {
+		for _, d := range f.Decls {
+			fd, ok := d.(*ast.FuncDecl)
+			if !ok || fd.Body == nil {
+				continue
+			}
+			fn, _ := info.Defs[fd.Name].(*types.Func)
+			if fn == nil {
+				continue
+			}
+			res := fn.Type().(*types.Signature).Results()
+			if res.Len() != 1 || !types.Identical(res.At(0).Type(), a.ptrStmt) {
+				continue
+			}
+			r := resultRow{fn: fnKey(fd)}
+			ast.Inspect(fd.Body, func(x ast.Node) bool {
+				switch y := x.(type) {
+				case *ast.FuncLit:
+					return false
+				case *ast.ReturnStmt:
+					if len(y.Results) != 1 {
+						r.kinds = append(r.kinds, pkOther("return without an expression"))
+					} else {
+						r.kinds = append(r.kinds, a.ptrKind(y.Results[0]))
+					}
+				}
+				return true
+			})
+			results = append(results, r)
+		}
+	}
+	sort.SliceStable(results, func(i, j int) bool { return results[i].fn < results[j].fn })
+	var locals []*ptrLocal
+	for _, l := range a.ptrLocals {
+		locals = append(locals, l)
+	}
+	sort.Slice(locals, func(i, j int) bool {
+		pi, pj := fset.Position(locals[i].pos), fset.Position(locals[j].pos)
+		if pi.Filename != pj.Filename {
+			return pi.Filename < pj.Filename
+		}
+		return pi.Offset < pj.Offset
+	})
+	// the methods that contain `*s = append(*s, ..)` on their receiver
+	selfApp := map[string]bool{}
+	directCount := map[string]int{}
+	for _, h := range h1s {
+		if h.u.coq == "UseAppendSelf" {
+			selfApp[fnKey(a.top(h.e))] = true
+		}
+		if direct[h.u.coq] && !a.ofTracked(h.e) && !a.derived(h.e) {
+			directCount[h.u.coq]++
+		}
 	}
 
 	cloneWrap, cloneFound, newFresh := false, false, false
@@ -944,6 +1408,35 @@ func main() {
 		}
 		cs = append(cs, fmt.Sprintf("(%s, %s, [%s])", coqfmt.Str(r.fn), coqfmt.Str(r.name), strings.Join(us, "; ")))
 	}
+	var dc []string
+	for _, k := range []string{"UseRange", "UseIndexRead", "UseLen", "UseCap", "UseAppendSelf"} {
+		dc = append(dc, fmt.Sprintf("(%s, %d)", coqfmt.Str(k), directCount[k]))
+	}
+	fmt.Fprintf(out, "(* evidence for the enumeration: how many Statement-typed value expressions of package jen are in\n   each of the direct positions (they have no row in copies_readonly; every other one has) *)\nDefinition direct_header_uses : list (str * nat) := [%s].\n\n", strings.Join(dc, "; "))
+	var sa []string
+	for k := range selfApp {
+		sa = append(sa, k)
+	}
+	sort.Strings(sa)
+	for i := range sa {
+		sa[i] = coqfmt.Str(sa[i])
+	}
+	fmt.Fprintf(out, "(* the functions whose body contains `*s = append( *s, ..)` on their receiver *)\nDefinition self_appending_methods : list str := %s.\n\n", coqfmt.List(sa, "  "))
+	var rr []string
+	for _, r := range results {
+		rr = append(rr, fmt.Sprintf("(%s, [%s])", coqfmt.Str(r.fn), strings.Join(r.kinds, "; ")))
+	}
+	fmt.Fprintf(out, "(* every function and method of package jen whose only result is a *Statement: what each of its\n   return statements returns *)\nDefinition ptr_results : list result_row := %s.\n\n", coqfmt.List(rr, "  "))
+	var ll []string
+	for _, l := range locals {
+		ll = append(ll, fmt.Sprintf("(%s, %s, %s)", coqfmt.Str(l.fn), coqfmt.Str(l.key), l.kind))
+	}
+	fmt.Fprintf(out, "(* the single-assignment local *Statement variables mentioned above and below: function,\n   \"file:line name\", its initialiser *)\nDefinition ptr_locals : list local_row := %s.\n\n", coqfmt.List(ll, "  "))
+	var cl []string
+	for _, c := range calls {
+		cl = append(cl, fmt.Sprintf("(%s, %s, %s, %s)", coqfmt.Str(c.fn), coqfmt.Str(c.where), coqfmt.Str(c.method), c.kind))
+	}
+	fmt.Fprintf(out, "(* every mention of a method of Statement in package jen: function it is in, where, the method,\n   what the receiver expression denotes *)\nDefinition builder_calls : list call_row := %s.\n\n", coqfmt.List(cl, "  "))
 	fmt.Fprintf(out, "(* every copy of a Statement's slice header (local variable or parameter: the category of each of\n   its mentions) and every Statement-valued expression in a position other than range, index\n   read, len, cap, append to itself: function, where, categories *)\nDefinition copies_readonly : list copy_row := %s.\n", coqfmt.List(cs, "  "))
 }
 
